@@ -20,6 +20,8 @@
 //	arm <gate>[#n] …       (replaces the armed set) the n-th next hit of the gate parks its goroutine and freezes the background
 //	await                  wait (bounded) until an armed gate was hit and the background is settled
 //	release                un-freeze, release every parked goroutine (gates armed but not yet hit stay armed)
+//	                       — every background step goes through a gate, so while frozen-and-settled nothing but the script's
+//	                       own batches can change the root
 //	quiesce                wait until the root is persisted, the merger has planned at it and nothing moves
 //	read                   the reader's view (only ever taken while frozen-and-settled or quiescent)
 //	hold / reread          keep a reader open / read it again later (it must still show its own epoch)
@@ -33,6 +35,7 @@
 //	merge <epoch> id=<newSid> <mem|file> in=<sid>{drops}/… tab=<n,n,x>/… new=[docs]  ## <physical root>
 //	snap <epoch> <creator> newid=<sid|0>                                         ## <physical snapshot written>
 //	read e=<epoch> k=<K> [held]                                                  ## n=<Count> all=<id.body,…> look=<id>=<body;…>,…
+//	pastroot <epoch>                                                             ## <physical root of that epoch, as it looks NOW> (at `reread`)
 //
 // physical root = e<epoch> then per segment <sid><m|p>[<id>.<body>,…]{<deleted doc numbers>}.
 package main
@@ -79,7 +82,8 @@ func (h) Rule() string {
 		"(ps:write/segwritten/loaded/swapped/snapwritten) at each of which 1–2 batches land that delete/update documents of exactly " +
 		"the segments under merge/persist (one doc, one doc of a segment that already carries deletions, all docs of one segment, " +
 		"all docs of all segments, a doc of a staying segment), reader views at every phase and at quiescence; configurations " +
-		"cycle through {mem,fs}x{ice v1,v2}x{safe,unsafe}x MinSegmentsForInMemoryMerge {1,2,3,100}; thorough enumerates every " +
+		"cycle through {mem,fs}x{ice v1,v2}x{safe,unsafe}x MinSegmentsForInMemoryMerge {1,2,3,100} x merge-plan floor {1,4,100} x " +
+		"segments per merge task {2,3} (tier 2; floor 100 merges whenever two persisted segments exist); thorough enumerates every " +
 		"(gate, batch kind) and every ordered pair of gates of one scenario, quick takes a seeded sample; an evaluation is one " +
 		"reader view, non-trivial when at least one batch of its case landed while a goroutine was parked at a gate"
 }
@@ -249,6 +253,7 @@ type event struct {
 	creator string
 	segs    []segRec
 	grab    uint64 // root events: epoch of the last snapshot the persister grabbed
+	snap    *index.Snapshot
 }
 
 type world struct {
@@ -265,6 +270,7 @@ type world struct {
 	gateCount map[string]int
 
 	events     []*event
+	roots      []*event // every root installed in this case (re-read by `reread`: a published root never changes)
 	lastEpoch  uint64
 	lastRoot   *event
 	lastGrab   uint64
@@ -375,7 +381,9 @@ func trace(iw *index.Writer, kind string, snap *index.Snapshot, x uint64) {
 	}
 	ev := snapEvent(w, "root", snap)
 	ev.grab = w.lastGrab
+	ev.snap = snap
 	w.events = append(w.events, ev)
+	w.roots = append(w.roots, ev)
 	w.lastEpoch = ev.epoch
 	w.lastRoot = ev
 	if ev.creator == "introduceSegment" {
@@ -1602,6 +1610,23 @@ func execReal(line string, out func(string, string), st sink, work string) {
 			out(fmt.Sprintf("read e=%d k=%d held cfg=%s", hr.epoch, cur.k, cur.cfg), res)
 			st.Count("op:reread")
 		}
+		// every root ever installed in this case, looked at again NOW: its segments and deleted bitmaps are
+		// published, immutable data (the bitmaps are plain memory: no reference on the snapshot is needed)
+		mu.Lock()
+		w := W
+		var lines [][2]string
+		for _, ev := range w.roots {
+			if ev.snap == nil {
+				continue
+			}
+			again := snapEvent(w, "past", ev.snap)
+			lines = append(lines, [2]string{fmt.Sprintf("pastroot %d cfg=%s", ev.epoch, cur.cfg), again.phys(w)})
+		}
+		mu.Unlock()
+		for _, l := range lines {
+			out(l[0], l[1])
+		}
+		st.CountN("op:pastroot", len(lines))
 	case "end":
 		closeCase(out, st)
 		out(line, "closed")
@@ -1701,7 +1726,7 @@ func (h) Exec(line string, out func(string, string), st *hlib.Stats, work string
 		select {
 		case x := <-ch:
 			l, err = x.l, x.err
-		case <-time.After(60 * time.Second):
+		case <-time.After(150 * time.Second):
 			// the real writer hangs (a deadlock is an observation too)
 			_ = child.cmd.Process.Kill()
 			child.stderr.WriteString("\nhung\n")
@@ -1842,7 +1867,7 @@ func (h) Gen(r *hlib.Rand, tier string, scale int, emit func(string)) {
 		emit(fmt.Sprintf("fill n=%d s=%d", 9, r.U64()%1000000))
 		emit("await")
 		emit("read")
-		if r.Chance(50) {
+		if r.Chance(70) {
 			emit("hold") // a reader opened at the gate is read again at the end
 		}
 		emit(symBatch(k1))
@@ -1855,6 +1880,9 @@ func (h) Gen(r *hlib.Rand, tier string, scale int, emit func(string)) {
 			emit("release")
 			emit("await")
 			emit("read")
+			if r.Chance(50) {
+				emit("hold")
+			}
 			emit(symBatch(k2))
 			emit("read")
 		}
